@@ -24,8 +24,14 @@ def add_probe(rng, version, hist):
     return hist + [PROBE]
 
 
+def ota_session(rng, version, hist):
+    """weave a scripted OTA session (incl. block requests naming other / unloaded firmware) into half the histories"""
+    from .c10 import session_burst
+    return session_burst(rng, version, hist) if rng.random() < 0.5 else hist
+
+
 CFG = {"quick": 300, "thorough": 12000, "lengths": [10, 20, 35], "malformed": 0.4,
-       "bias": {"stream": 2, "update": 1.5, "wake": 1.5, "ctl_set": 1.5}, "post": [add_probe]}
+       "bias": {"stream": 2, "update": 1.5, "wake": 1.5, "ctl_set": 1.5}, "post": [ota_session, add_probe]}
 
 
 def probe_oracle(hist, obs_lines):
